@@ -518,7 +518,9 @@ _BOOL_SUMMARY = {}
 
 def bool_summary(prog, fn):
     """Formula under which a bool-returning in-repo function returns true (all returns must be boolean terms)."""
-    key = (id(prog), fn.sig)
+    # cached per program object (never by id(): ids are reused after a program of another variant was freed)
+    _BOOL_SUMMARY = prog.__dict__.setdefault('_bool_summary_cache', {})
+    key = fn.sig
     if key not in _BOOL_SUMMARY:
         g = GuardScan(prog, fn, {})
         g.scan(fn.body, TRUE)
@@ -687,18 +689,19 @@ class CEval:
         fn = self.prog.by_sig(c.get('sig'))
         if fn is None or fn.body is None or len(fn.params) != len([a_ for a_ in e.get('args', [])]):
             return None
-        key = (id(self.prog), fn.sig)
-        if key not in CEval._PURE:
+        key = fn.sig
+        _PURE = self.prog.__dict__.setdefault('_pure_call_cache', {})
+        if key not in _PURE:
             try:
                 from .symx import Symx
                 sx = Symx(self.prog, fn)
                 outs = sx.run()
                 syms = [sx.symbol(p_['name'], p_['ty']) for p_ in fn.params]
                 ok = all(o.kind == 'return' and isinstance(o.value, sp.Basic) for o in outs)
-                CEval._PURE[key] = (outs, syms) if ok else None
+                _PURE[key] = (outs, syms) if ok else None
             except Exception:
-                CEval._PURE[key] = None
-        ent = CEval._PURE[key]
+                _PURE[key] = None
+        ent = _PURE[key]
         if ent is None:
             return None
         outs, syms = ent
